@@ -30,15 +30,23 @@ STREAMS = {
     "fit": ("s_forest", {"want": ("fit",)}),
     "semi": ("s_forest", {"want": ("semi",)}),
     "forest": ("s_forest", {"want": ("prim", "fit", "semi")}),
+    "dist": ("s_dist", {}),
+    "knn": ("s_knn", {"want": ("arcs", "pdf")}),
+    "cluster": ("s_knn", {"want": ("arcs", "pdf", "cluster")}),
+    "knnpred": ("s_knnmodel", {"want": ("knnpred",)}),
+    "select": ("s_knnmodel", {"want": ("select",)}),
 }
 
+P = "OpfVerif.Props."
 PROPS = {
-    "C01": {"modules": ["OpfVerif.Props.C01"], "streams": ["heap", "fit"]},
-    "C02": {"modules": ["OpfVerif.Props.C02"], "streams": ["heap", "prim", "fit"]},
-    "C03": {"modules": ["OpfVerif.Props.C03"], "streams": ["fit", "semi"]},
-    "C05": {"modules": ["OpfVerif.Props.C05"], "streams": ["heap"]},
+    "C01": {"modules": [P + "C01", P + "C01Exec"], "streams": ["heap", "fit"]},
+    "C02": {"modules": [P + "C02", P + "C02Exec"], "streams": ["heap", "prim", "fit"]},
+    "C03": {"modules": [P + "C03"], "streams": ["fit", "semi"]},
+    "C05": {"modules": [P + "C05"], "streams": ["heap"]},
+    "C06": {"modules": [P + "C06", P + "C06b"], "streams": ["dist"]},
+    "C07": {"modules": [P + "C07"], "streams": ["dist", "fit", "select"]},
+    "C08": {"modules": [P + "C08", P + "C08Symm", P + "C08Self", P + "C08Metric", P + "C08Nonneg"], "streams": ["dist"]},
 }
-
 
 def run_streams(pid, cfg, tier, seed, extra_round=0):
     results = []
